@@ -22,10 +22,20 @@ CONFIG = dict(
                "modules under node/modules are translated from the working tree on every run into a small statement language; the kernel decides that "
                "every path calls next exactly once, all six bodies are found by name, and (shipped_module_one_next / once_modules_phase_completes) any "
                "path cut short by a panic of one of its statements still gives exactly one next call of the wrapper, which composes to exactly one "
-               "finish for any list of such modules. The model is tied to the real code by ~20k generated ops per run (all lengths 0-5 x failure "
+               "finish for any list of such modules. Nested calls: a module that reports inside its Start/Stop runs the rest of the phase and finally "
+               "the completion callback inside that call; `Chain` models that Go stack (one deferred recover per active doFunc) with a completion "
+               "callback that may panic: its log is the wrapper model's log for whatever the modules do (chain_refines_wrapper: all theorems above "
+               "apply), every active module but the innermost has its reported flag set (chain_stack_reported), and from every reachable state a "
+               "panicking callback changes neither the log (how often finish is invoked, what is entered) nor the flags nor Filter's index - it only "
+               "cuts active Start/Stop calls short (callback_panic_only_unwinds); a Start/Stop call is unwound by at most one panic there (chain_panics_disciplined: proved, no longer assumed), so "
+               "that only the modules' reports are left to a hypothesis (chain_mdisciplined); reported_flag_order_witness shows what happens with the wrapper's "
+               "two statements swapped. The model is tied to the real code by ~20k generated ops per run (all lengths 0-5 x failure "
                "position x sync/delayed mask x phase exhaustively; panics before/after the report at every position incl. late reports; silences of "
                "1 ms .. 25 h under a virtual clock during which nothing may happen; node refusals and repeated StartNode; random cases incl. double "
-               "completion) compared log by log.",
+               "completion; completion callbacks that panic at every length 0-3 x failure position and kind x sync/delayed mask x phase) compared log by "
+               "log; every begin / fire of a case that fits `Chain` (~70% of them) is replayed on Chain.step as well and must give the same Filter events "
+               "and the same escape of the panic. The real ClusterModule, WelcomeModule and ActorSystemModule are executed at every position of a node, "
+               "the actor module also with the node's address occupied / not local (remote.Start panics: the phase must end there with false).",
     level_note="Trusted: Lean kernel; the harness/driver line protocol; the translator (go/ast, conservative: constructs it does not interpret and that "
                "involve the callback become Stmt.bad and fail the obligation; branch conditions are opaque and independent; opaque statements are "
                "assumed to terminate - a synchronous panic of one is covered by the wrapper theorems, a panic on another goroutine is not). Concurrent "
@@ -34,7 +44,11 @@ CONFIG = dict(
                "ModList.Filter's non-reentrant lock is not modelled: a Stop/Start/AddModule issued by a completion callback or a module while the "
                "synchronous chain of a Filter call is still running blocks forever in the Go code (reproduced; reported as a suspected defect), "
                "such cases are not generated and start_callback_sees_normal is about a Stop issued outside that chain. The wrapper is composed with "
-               "the App at the level of next calls (AOp.call = the wrapper's next), not by a separate App-level theorem.",
+               "the App at the level of next calls (AOp.call = the wrapper's next), not by a separate App-level theorem. `Chain` is one goroutine: a "
+               "report that arrives from another goroutine while a synchronous chain is still running (COp.late with a non-empty stack) is not "
+               "modelled; what the harness's frame interpreter (Driver `drain`) does beyond `Chain` - AddModule, re-entrant callbacks, the App guard, "
+               "node services - is tied to the code by the differential run only. A completion callback that panics skips what follows it in the "
+               "closure that called it (App.Stop's Cleanup; nothing in Start): not observed.",
     gen=["cd harness && go1.26 run ./extract/c11 -out ../lean/Cell2v/Gen/C11Modules.lean",
          # self-test of the translator's conservativeness on a zoo of 27 constructs (testdata/root/node/modules/zoo)
          "cd harness && go1.26 test -vet=off ./extract/c11"],
@@ -51,6 +65,8 @@ CONFIG = dict(
                        "app_stop_once", "app_stop_phase_is_filter_disciplined",
                        "node_refusals_silent", "node_callbacks_are_app_reports", "node_services_then_fin", "node_start_is_app_start",
                        "node_start_reports_exactly_once", "second_startnode_witness",
+                       "chain_refines_wrapper", "chain_stack_reported", "callback_panic_only_unwinds", "chain_disciplined_canonical", "reported_flag_order_witness",
+                       "chain_panics_disciplined", "chain_mdisciplined",
                        "shipped_modules_complete_once", "shipped_modules_found", "shipped_modules_named", "shipped_module_one_next", "once_modules_phase_completes"],
     harness_pkg="./c11",
     mode="diff",
@@ -63,22 +79,23 @@ CONFIG = dict(
     trivial=r"^(ok|-|noop|over|bad-op)?$",
     rule="cases = `reset` + ops on one module list (plain ModList, baseapp.App, or node/app.App driven through StartNode/StopNode with a launch mode of the harness; node cases cycle through service lists none / all configured / one missing from the `services:` map first, middle, last / all missing, so that StartServices runs its skip path inside the completion closure; every created service is observed, V<i>): (a) every path of every translated shipped Start/Stop body replayed as a scripted module at "
          "each position of a 3-module list, also cut short by a panic before / after its report; (b) exhaustive: every list length 0..5 (thorough 0..7) x failure position or none x every "
-         "synchronous/delayed mask x phase, delayed modules completed through another goroutine / a timer / directly; (b0) panics: a module panics before reporting (holding on to its callback: a late report T/F follows) or after reporting, n 1..4 x position x phase x object, in a synchronous chain and in a chain outside Filter; (b1) slow: under the virtual clock (clock=v: the case runs inside one testing/synctest bubble) one module stays silent for 1 ms .. 25 h (`wait`) at every position and phase of a ModList / App - nothing may happen meanwhile - and reports then; waits after the phase is over; (b2) re-entrant callbacks: the start-completion callback issues Stop directly or through a goroutine it waits for, the stop-completion callback issues Start/Stop (only patterns that do not run under ModList.Filter's non-reentrant lock: module 0 completes later), n 1..4 x object x callback x failure position x delays; (b3) a module itself issues Stop/Start from inside its Start/Stop (directly, or by handing a Stop to another goroutine) at every position, phase, sync/delayed chain, on App and node; (b4) growing lists: a module registers a further module (AddModule) right before completing — from its delayed completion or synchronously in a chain outside Filter — at every position, and during a stop phase; node cases also cycle the launch-mode name (registered / empty / unregistered with a default launch func); (b5) the real ClusterModule / WelcomeModule executed at every position of a node (clustering off: success; clustering on with a port-less own address: StartMember fails early, no etcd needed) against the outcome the translated bodies promise; (b6) delayed completions delivered by the application's own run service timer (GetTimerMgr().After) in both phases; (b7) node: StartNode with an unknown node id, before Prepare, and (first corpus case of the process) without any launch mode - refused silently, the node stays startable; StartNode repeated before / after start-up and after Stop with an idempotent launch mode and with one that registers its modules every time (the list grows, Stop visits never-started modules); (c) random cases from one PRNG "
-         "(VERIF_SEED): length 0..6, App or plain ModList or node, a third of the non-node cases under the virtual clock with random silences, scripts T/F/delayed/panic-before/panic-after, premature or repeated Start/Stop, and in "
+         "synchronous/delayed mask x phase, delayed modules completed through another goroutine / a timer / directly; (b0) panics: a module panics before reporting (holding on to its callback: a late report T/F follows) or after reporting, n 1..4 x position x phase x object, in a synchronous chain and in a chain outside Filter; (b0') panicking completion callbacks (cbS / cbX = panic): every list length 0..3 (thorough 0..4) x failure position or none x how it fails (reports false / panics before reporting / reports and panics) x every synchronous/delayed mask x phase, on ModList / App / node: the panic is recovered by the innermost active module's wrapper (the rest of that module's Start/Stop is cut off), travels on when the wrapper's own finish(false) panics, or reaches the caller of next / Start / Stop (`panic` token, legitimate only directly after the callback's token) - the callback has been invoked exactly once in any case; (b1) slow: under the virtual clock (clock=v: the case runs inside one testing/synctest bubble) one module stays silent for 1 ms .. 25 h (`wait`) at every position and phase of a ModList / App - nothing may happen meanwhile - and reports then; waits after the phase is over; (b2) re-entrant callbacks: the start-completion callback issues Stop directly or through a goroutine it waits for, the stop-completion callback issues Start/Stop (only patterns that do not run under ModList.Filter's non-reentrant lock: module 0 completes later), n 1..4 x object x callback x failure position x delays; (b3) a module itself issues Stop/Start from inside its Start/Stop (directly, or by handing a Stop to another goroutine) at every position, phase, sync/delayed chain, on App and node; (b4) growing lists: a module registers a further module (AddModule) right before completing — from its delayed completion or synchronously in a chain outside Filter — at every position, and during a stop phase; node cases also cycle the launch-mode name (registered / empty / unregistered with a default launch func); (b5) the real ClusterModule / WelcomeModule / ActorSystemModule executed at every position of a node (clustering off: success; clustering on with a port-less own address: StartMember fails early, no etcd needed; actor: the node's address free - success, remote server shut down with the case -, occupied by a listener of the harness, or not local to the host: remote.Start panics, ModList's wrapper reports the failure) against the outcome the translated bodies promise; where a fault was injected the spec demands that start-up ends at that module (no later module entered, no success reported), and a real module that panics where its script does not say `!` counts as never having completed (the wrapper standing in for it does not count for a shipped module); (b6) delayed completions delivered by the application's own run service timer (GetTimerMgr().After) in both phases; (b7) node: StartNode with an unknown node id, before Prepare, and (first corpus case of the process) without any launch mode - refused silently, the node stays startable; StartNode repeated before / after start-up and after Stop with an idempotent launch mode and with one that registers its modules every time (the list grows, Stop visits never-started modules); (c) random cases from one PRNG "
+         "(VERIF_SEED): length 0..6, App or plain ModList or node, a third of the non-node cases under the virtual clock with random silences, scripts T/F/delayed/panic-before/panic-after, an eighth with panicking completion callbacks, premature or repeated Start/Stop, and in "
          "`neg` cases double/late/stale completions. An op is non-trivial when its observation contains at least one log token "
          "(not ok / - / noop / over); distinct = distinct (op, observation) pairs",
     trusted_base=[
         "Lean 4.33.0 kernel; axioms of every property theorem audited on each run (allowed: propext, Classical.choice, Quot.sound)",
-        "hand-written model lean/Cell2v/Model/Modules.lean (ModList.Filter closures, the Start/Stop wrapper with its two flags, App state guard, node/app StartNode/StopNode + LaunchApp) tied to the Go code by the differential run of this check (harness/c11 + modeld_c11)",
+        "hand-written model lean/Cell2v/Model/Modules.lean (ModList.Filter closures, the Start/Stop wrapper with its two flags, the stack of nested Start/Stop calls with a panicking completion callback (Chain), App state guard, node/app StartNode/StopNode + LaunchApp) tied to the Go code by the differential run of this check (harness/c11 + modeld_c11)",
         "translator harness/extract/c11 (go/ast, ~500 lines): Start/Stop bodies under node/modules -> Stmt terms (lean/Cell2v/Gen/C11Modules.lean) and call sequences per path (JSON replayed through the real ModList)",
+        "the driver's frame interpreter (Driver/C11.lean `drain`: scripts, AddModule, re-entrant callbacks) - cross-checked against Chain.step on every op of the cases Chain covers (`chain-mismatch`)",
         "harness canonicalisation: log tokens only (module index, phase, bool, service index, PrepareModules marker); panics escaping the code under test mapped to 'panic', no return within 4 s (20 s real time for a case under the virtual clock) to 'blocked'",
         "testing/synctest (go1.26) for the clock=v cases: time.AfterFunc / Sleep / After inside the bubble run on a virtual clock",
     ],
     assumptions=[
         "invocations of next (and of one module's wrapped callback and its panic handler) are serialised (no two goroutines inside next at the same instant); under at-most-once completion only one module is outstanding, so this holds by the theorem itself",
-        "AddModule during a phase is modelled between completion events only (it takes the same lock as Filter: inside Filter's synchronous chain it would block forever); the App-level theorems are for a fixed list; finish itself returns normally and does not re-enter the list from inside a synchronous chain",
-        "shipped modules: branch conditions are independent and opaque; statements that do not mention the callback terminate (ClusterModule.Start blocks in StartMember while etcd is unreachable: then the module never completes and neither does the phase) and panic, if at all, on the goroutine that runs Start/Stop; a callback handed to other code (timer, helper function) is not interpreted and fails the obligation",
-        "each module's Start/Stop is unwound by at most one panic per phase (a Go function panics out once) - part of MDisciplined",
+        "AddModule during a phase is modelled between completion events only (it takes the same lock as Filter: inside Filter's synchronous chain it would block forever); the App-level theorems are for a fixed list; finish does not re-enter the list from inside a synchronous chain (it may return or panic: Chain / callback_panic_only_unwinds)",
+        "shipped modules: branch conditions are independent and opaque; statements that do not mention the callback terminate (ClusterModule.Start blocks in StartMember while etcd is unreachable: then the module never completes and neither does the phase) and panic, if at all, on the goroutine that runs Start/Stop (ActorSystemModule.Start's remote.Start does, when the address cannot be bound: executed); a callback handed to other code (timer, helper function) is not interpreted and fails the obligation",
+        "each module's Start/Stop is unwound by at most one panic per phase (a Go function panics out once) - part of MDisciplined; proved for one goroutine's chain of nested calls (chain_panics_disciplined), assumed only where a module panics on a goroutine of its own",
         "App.Prepare is called once per App (a second Prepare re-opens the Start guard by design)",
         "a completion callback that re-enters Start/Stop runs outside ModList.Filter (on the unchanged tree a Stop issued from the start callback of an all-synchronous module list deadlocks on Filter's non-reentrant lock; such cases are not generated)",
         "node/app: an accepted StartNode whose launch mode registers modules happens once per node (node_start_is_app_start; a second one registers them again before the App guard refuses it: second_startnode_witness, exercised by the harness); StartNodeCtrl runs with node control off; nodes.yaml is readable (config.LoadNodes never returns nil: the `nodes == nil` refusal is reached only without Prepare)",
